@@ -66,8 +66,8 @@ func tryReplay(c *kc.Ctx, prop string) bool {
 			fmt.Println("receiver differs from returned value at:", ret)
 		}
 		still = af != ff || len(ret) > 0
-		if g.Model != "" && g.Model != "qr512" && !hasOp(p, "pick") {
-			out := c.Model([]string{"grp " + g.Model + " " + modelText(p)})
+		if g.Grp != "" && !hasOp(p, "pick") {
+			out := c.Model([]string{"grp " + g.Grp + " " + modelText(p)})
 			fmt.Println("model    :", out[0])
 			still = still || out[0] != ff
 		}
